@@ -350,6 +350,12 @@ def run(ctx, pid, features, n_scenarios, n_random_inputs, cfgs, malformed=0, poo
     ctx.extra["phase_wall_s"] = phase
     for scn in scenarios:
         cfg = dmeta[id(scn)][1] if id(scn) in dmeta else rng.choice(cfgs)
+        if id(scn) not in dmeta and cfg.get("symbolic_storage") and "TLOAD" in classify_program(scn):
+            # documented exclusion (known finding, corpus case tload-under-symbolic-storage): transient and persistent
+            # storage share the name of their base array, so a TLOAD's emptiness axiom constrains the arbitrary initial
+            # persistent storage; generated programs with TLOAD run with concrete (zero) initial storage instead
+            cfg = {k: v for k, v in cfg.items() if k != "symbolic_storage"}
+            ctx.count("exclusion:symbolic-storage-with-TLOAD")
         _t = time.time()
         sr = D.symbolic_run(scn, **cfg)
         phase["symbolic_run"] += time.time() - _t
